@@ -21,6 +21,13 @@ def check_roles(cx, rep, funcs=None, floor=None, rule='audio-parameter role agre
         rep.ob(rule, p['ok'], p['where'], '%s:%s->%s' % (p['func'], p['kind'], p['receiver']),
                'in %s, %s: %s (role %s) is handed to %s (role %s)' % (p['func'], p['kind'], p['giver'], p['role_g'], p['receiver'], p['role_r']),
                sample=dict(site=p['where'], func=p['func'], kind=p['kind'], giver=p['giver'], receiver=p['receiver'], role=p['role_g']))
+    # argument selection: a parameter forwarded to a callee that has a parameter of the same name goes to THAT parameter
+    for r in rc.crossed_forwarding(['core', 'io', 'util', 'workers', 'cmdline', 'cmdline_util', 'signal']):
+        p = dict(func=r['func'], where=r['where'], kind='forwarding to %s' % r['callee'], giver=r['given'], receiver=r['param'])
+        if funcs is not None and not funcs(p):
+            continue
+        rep.ob('a parameter forwarded to a callee that also has a parameter of that name is passed under its own name', bool(r.get('ok')), r['where'], '%s:%s<-%s' % (r['func'], r['param'], r['given']),
+               'in %s, %s(%s=%s): both names are parameters of caller and callee, but %s is handed to %s' % (r['func'], r['callee'], r['param'], r['given'], r['given'], r['param']))
     if floor is not None:
         rep.floor('role hand-over sites', n, floor)
     return n
@@ -223,6 +230,6 @@ def check(repo, rep):
                        'are the tokenized source\'s own; start = token START index * effective window (source.block_dur = block_size/rate, not the requested analysis_window); the '
                        'tokenizer reads the same source with generator=True and the result is a lazy iterable; validator/tokenizer arguments sit in the right slots, no initial phase, '
                        'mode = 4*drop + 2*strict; duration = len(data)/(rate*width*channels), end = start + duration; AudioRegion.split delegates in role. '
-                       'NOT decided here: byte equality itself -- it is the composition of C01 (token frames are stream positions start..end) and C10 (frame k is samples [k*block, ...)).')
+                       'an AudioRegion input is read with its own rate/width/channels bound under the long keywords (a caller\'s keyword cannot override them); AudioRegion.split and split() have the same defaults. NOT decided here: byte equality itself -- it is the composition of C01 (token frames are stream positions start..end) and C10 (frame k is samples [k*block, ...)).')
     rep.assumptions = ['C01 and C10 hold (checked by their own commands)']
     rep.analysed['functions'] = ['core.split', 'core._make_audio_region', 'core.AudioRegion.__post_init__', 'core.AudioRegion.split']
